@@ -119,6 +119,8 @@ struct RunOptions {
 fn main() -> miette::Result<()> {
     use MsgColor::*;
     let args = Args::parse();
+    // `-f` may also be written before the sub-command
+    let global_features = args.run_options.features;
 
     miette::set_hook(Box::new(|_| {
         Box::new(
@@ -146,7 +148,7 @@ fn main() -> miette::Result<()> {
             minimal,
             run_options: RunOptions { features },
         }) => {
-            lace::features::init(features);
+            lace::features::init(features.union(global_features));
             run(&name, None, minimal)
         }
         Some(Command::Debug {
@@ -157,7 +159,7 @@ fn main() -> miette::Result<()> {
             print_help,
         }) => match (name, print_help) {
             (Some(name), false) => {
-                lace::features::init(features);
+                lace::features::init(features.union(global_features));
                 run(&name, Some(debugger::Options { command }), minimal)
             }
             (None, true) => {
@@ -173,7 +175,7 @@ fn main() -> miette::Result<()> {
             dest,
             run_options: RunOptions { features },
         }) => {
-            lace::features::init(features);
+            lace::features::init(features.union(global_features));
             file_message(Green, "Assembling", &name);
             let contents = StaticSource::new(fs::read_to_string(&name).into_diagnostic()?);
             let air = assemble(&contents)?;
@@ -202,7 +204,7 @@ fn main() -> miette::Result<()> {
             name,
             run_options: RunOptions { features },
         }) => {
-            lace::features::init(features);
+            lace::features::init(features.union(global_features));
             file_message(Green, "Checking", &name);
             let contents = StaticSource::new(fs::read_to_string(&name).into_diagnostic()?);
             let _ = assemble(&contents)?;
@@ -214,7 +216,7 @@ fn main() -> miette::Result<()> {
             name,
             run_options: RunOptions { features },
         }) => {
-            lace::features::init(features);
+            lace::features::init(features.union(global_features));
             if !name.exists() {
                 bail!("File does not exist. Exiting...")
             }
@@ -310,7 +312,7 @@ fn run(name: &PathBuf, debugger_opts: Option<debugger::Options>, minimal: bool) 
                 }
 
                 // Read to byte buffer
-                let mut file = File::open(&name).into_diagnostic()?;
+                let file = File::open(&name).into_diagnostic()?;
                 let f_size = file.metadata().unwrap().len();
                 if f_size % 2 != 0 {
                     bail!("File is not aligned to 16 bits")
